@@ -306,7 +306,7 @@ func c14kTornLen(i, n, size int) int {
 
 var (
 	c14kOpenRe  = regexp.MustCompile(`^AT_FDCWD, "([^"]*)", .*\) = (\d+)$`)
-	c14kWriteRe = regexp.MustCompile(`^(\d+), .*, (\d+)\)\s+= \?`)
+	c14kWriteRe = regexp.MustCompile(`^(\d+), .*, (\d+)(?:\)\s+= \?| <unfinished \.\.\.>$)`)
 )
 
 // c14kTornTarget finds the file and the size of the write call at which the
@@ -353,7 +353,12 @@ type c14kTraceLine struct {
 	text string
 }
 
-var c14kTraceRe = regexp.MustCompile(`^(\d+)\s+([a-z0-9_]+)\((.*)$`)
+var (
+	c14kTraceRe   = regexp.MustCompile(`^(\d+)\s+([a-z0-9_]+)\((.*)$`)
+	c14kResumedRe = regexp.MustCompile(`^(\d+)\s+<\.\.\. ([a-z0-9_]+) resumed>(.*)$`)
+)
+
+const c14kUnfinished = " <unfinished ...>"
 
 // c14kParseTrace returns the syscall-entry lines of a strace -f -o log and
 // whether the process was killed by SIGKILL.
@@ -372,12 +377,25 @@ func c14kParseTrace(path string) (lines []c14kTraceLine, killed bool, err error)
 
 			continue
 		}
+		if rm := c14kResumedRe.FindStringSubmatch(ln); rm != nil {
+			// Join the two halves of a call that strace printed around the
+			// events of other threads.
+			for i := len(lines) - 1; i >= 0; i-- {
+				if lines[i].pid == rm[1] && lines[i].sys == rm[2] && strings.HasSuffix(lines[i].text, c14kUnfinished) {
+					lines[i].text = strings.TrimSuffix(lines[i].text, c14kUnfinished) + rm[3]
+
+					break
+				}
+			}
+
+			continue
+		}
 		m := c14kTraceRe.FindStringSubmatch(ln)
 		if m == nil {
 			continue
 		}
 		tl := c14kTraceLine{pid: m[1], sys: m[2], text: m[3]}
-		if n := len(lines); n > 0 && strings.HasSuffix(tl.text, "<unfinished ...>") &&
+		if n := len(lines); n > 0 && strings.HasSuffix(tl.text, c14kUnfinished) &&
 			lines[n-1].sys == tl.sys && lines[n-1].text == tl.text && lines[n-1].pid != tl.pid {
 			// strace 6.1 sometimes prints the entry of the killed call a second
 			// time under the id of another thread; it was entered once.
@@ -637,11 +655,14 @@ func (g *c14kRig) runKillCase(c c14kCase) (fs []vrt.Finding) {
 			fs = append(fs, vrt.Finding{Key: key, Detail: fmt.Sprintf(format, args...)})
 		}
 	}
-	for attempt := 1; attempt <= 3; attempt++ {
-		if g.runKillOnce(add, c) {
-			break
+	hit := false
+	for attempt := 1; attempt <= 3 && !hit; attempt++ {
+		if hit = g.runKillOnce(add, c); !hit {
+			g.r.Class("kill:off-target-repeated")
 		}
-		g.r.Class("kill:off-target-repeated")
+	}
+	if !hit {
+		g.r.NotExhaustive(fmt.Sprintf("kill point %+v was not hit in 3 attempts", c))
 	}
 
 	return fs
@@ -681,11 +702,23 @@ func (g *c14kRig) runKillOnce(add func(key, format string, args ...any), c c14kC
 		}
 		if c.Torn > 0 {
 			// The write was under way when the process died.
+			if !onTarget {
+				return false
+			}
 			path, size, ok := c14kTornTarget(l.lines, l.thread)
-			if !onTarget || !ok || size != len(d.encB) || !strings.HasPrefix(path, g.base) && (g.other == "" || !strings.HasPrefix(path, g.other)) {
-				g.r.Class("torn-write:not-applicable(" + site + ")")
+			if !ok {
+				// Never seen once both halves of split strace lines are
+				// joined; the case is repeated and reported if it persists.
+				g.r.Class("torn-write:target-not-parsed")
+				g.keepLog(work)
 
-				return onTarget
+				return false
+			}
+			if size != len(d.encB) || !strings.HasPrefix(path, g.base) && (g.other == "" || !strings.HasPrefix(path, g.other)) {
+				// Not the write of the cache data.
+				g.r.Class("torn-write:not-the-cache-data(" + site + ")")
+
+				return true
 			}
 			n := c14kTornLen(c.Torn, g.torn, size)
 			f, err := os.OpenFile(path, os.O_WRONLY, 0)
